@@ -458,6 +458,33 @@ def fam_exhaustive_faults(tier, tag, seed=1):
     return out
 
 
+def fam_outage(tier, seed, tag, nruns):
+    """backend outage during flush_meta: several slices (of several tables) are
+    dirty, every request fails from the n-th request of the flush until it has
+    returned; then the backend works again, flush_meta is repeated, reopen"""
+    rng = random.Random(seed * 4241 + zlib.crc32(tag.encode()) % 1000)
+    out = []
+    gl = [dict(cb=9, ro=4, bsb=9, vclusters=300, params={"l2": [9, 2048], "rb": [9, 1024]}),
+          dict(cb=10, ro=4, bsb=9, vclusters=400, params={"l2": [9, 2048], "rb": [9, 1024]}),
+          dict(cb=10, ro=6, bsb=9, vclusters=300, params={"l2": [9, 2048], "rb": [9, 2048]})]
+    for i in range(nruns):
+        geo = gl[i % len(gl)]
+        bpc = 1 << (geo["cb"] - geo["bsb"])
+        vc = geo["vclusters"]
+        images = [S.image_shaped(rng, geo, 1, frac=rng.choice([0.0, 0.1]), kinds=("data", "zero"))]
+        # writes through 3-4 different L2 slices (64 entries each)
+        cs = sorted(rng.sample(range(0, vc, 64), min(4, vc // 64)))
+        pre = [{"op": "write", "gb": (c + rng.randrange(60)) * bpc + rng.randrange(bpc), "n": rng.choice([1, bpc, bpc + 1])} for c in cs]
+        touched = [st["gb"] for st in pre]
+        rd = [{"op": "read", "gb": gb - gb % bpc, "n": 2 * bpc} for gb in touched]
+        for k in range(0, 14, 1 if tier != "quick" else 3):
+            kk = k + (rng.randrange(3) if tier == "quick" else 0)
+            steps = pre + [{"op": "fail_from", "nth": kk}, {"op": "flush"}, {"op": "recover", "retries": 4}] + rd + \
+                    [{"op": "flush"}, {"op": "reopen"}] + rd
+            out.append(S.mk(f"{tag}-{i}-o{kk}", geo, images, steps))
+    return out
+
+
 def fam_cowread(tier, seed, tag, nruns):
     """reads overlapping copy-on-write in time: partial writes over backing /
     compressed clusters with concurrent reads of the same and neighbouring clusters"""
@@ -1218,6 +1245,7 @@ def check_C17(chk):
                           punch_unsupported=True))
     scens += fam_growth(chk.tier, chk.seed, "c17g", 4 if chk.tier == "quick" else 24, faults=8 if chk.tier == "quick" else 2)
     scens += fam_exhaustive_faults(chk.tier, "c17e", seed=chk.seed)
+    scens += fam_outage(chk.tier, chk.seed, "c17o", 6 if chk.tier == "quick" else 40)
     # (d) a fault at each request of the first qcow2_prep_io() (loading the L1 and refcount tables); the call is repeated
     for vi, (v, im) in enumerate(_exh_images().items()):
         for k in range(4):
